@@ -298,6 +298,133 @@ theorem C12_table_keys_instance :
     C12.check .missingValue 1 (a!"data_a _x {'k':}") (C12.blockA [a!"_x"] [.tbl [(a!"k", a!"k", .unk)]]) = true := by
   decide +kernel
 
+/-! ### the same classes with the POSITION of the report and of the final state on the scanner's walk
+
+  `RepAt o s j r`: the report `r` is made at a state `j` tokens behind the state `s` in which the run started (`At`: that state after
+  CONSUME_TOKEN, or with the next token scanned and pending), and `r.line` is the line of that state; `At o s n s'`: the run ends `n`
+  tokens behind `s`.  With `Reach.det` (Lemmas/ParserReach) the walk is a function of `s` and the number of tokens, so at character
+  level the line of the report is the line behind the `j`-th token (plus the pending one) of the text — Lemmas/DefectChars. -/
+
+theorem C12_missing_value_at (o : Opts) {path : Path} {put : Container → Cif} {code : Str} (hv : View o path put code)
+    (pre post : List Item) (n : Str) (seen seen2 : List Str) (rest : List TokSpec) (s : PS) (fuel : Nat) (w : W)
+    (fs : List Container) (ls : List Loop) (isBlock : Bool) (hcif : w.cif = put (.mk code fs ls))
+    (hpre : wfItems o pre seen = true) (hseen : ∀ k ∈ normNames o ls, k ∈ seen)
+    (hname : wfName n = true) (hfresh : o.norm n ∉ normNames o (denoteItems o.dia o.normKey pre ls))
+    (hpost : wfItems o post seen2 = true)
+    (hseen2 : ∀ k ∈ normNames o (denoteItems o.dia o.normKey (pre ++ [.item n .unk]) ls), k ∈ seen2)
+    (hfuel : szItems pre + szItems post + 1 ≤ fuel)
+    (hpostne : post ≠ [] ∨ ∃ ty tx ts, rest = (ty, tx) :: ts ∧ isTerminator ty = true)
+    (hrest : lastIsLoop post = true → ∃ ty tx ts, rest = (ty, tx) :: ts ∧ isTerminator ty = true)
+    (hF : Feeds o s (itemsToks pre ++ ((.name, n) :: (itemsToks post ++ rest)))) :
+    ∃ s' r, elemsLoop o (fuel + post.length + 1 + pre.length) s (some path) isBlock acceptAll w
+        = elemsLoop o fuel s' (some path) isBlock acceptAll
+            { log := r :: w.log, cif := put (.mk code fs (denoteItems o.dia o.normKey (pre ++ [.item n .unk] ++ post) ls)) }
+      ∧ r.code = CIF_MISSING_VALUE ∧ Feeds o s' rest ∧ RepAt o s ((itemsToks pre).length + 1) r
+      ∧ At o s ((itemsToks pre).length + 1 + (itemsToks post).length) s' := by
+  apply missing_value_run_at <;> assumption
+
+theorem C12_unexpected_value_at (o : Opts) {path : Path} {put : Container → Cif} {code : Str} (hv : View o path put code)
+    (pre post : List Item) (v : Val) (seen seen2 : List Str) (rest : List TokSpec) (s : PS) (fuel : Nat) (w : W)
+    (fs : List Container) (ls : List Loop) (isBlock : Bool) (hcif : w.cif = put (.mk code fs ls))
+    (hpre : wfItems o pre seen = true) (hseen : ∀ k ∈ normNames o ls, k ∈ seen) (hnoloop : lastIsLoop pre = false)
+    (hwv : wfVal o v = true) (hpost : wfItems o post seen2 = true)
+    (hseen2 : ∀ k ∈ normNames o (denoteItems o.dia o.normKey pre ls), k ∈ seen2)
+    (hfuel : szItems pre + szItems post + szVal v + 1 ≤ fuel)
+    (hrest : lastIsLoop post = true → ∃ ty tx ts, rest = (ty, tx) :: ts ∧ isTerminator ty = true)
+    (hF : Feeds o s (itemsToks pre ++ (valToks v ++ (itemsToks post ++ rest)))) :
+    ∃ s' r, elemsLoop o (fuel + post.length + 1 + pre.length) s (some path) isBlock acceptAll w
+        = elemsLoop o fuel s' (some path) isBlock acceptAll
+            { log := r :: w.log, cif := put (.mk code fs (denoteItems o.dia o.normKey (pre ++ post) ls)) }
+      ∧ r.code = CIF_UNEXPECTED_VALUE ∧ Feeds o s' rest ∧ RepAt o s ((itemsToks pre).length + 0) r
+      ∧ At o s ((itemsToks pre).length + (valToks v).length + (itemsToks post).length) s' := by
+  apply unexpected_value_run_at <;> assumption
+
+theorem C12_dup_itemname_at (o : Opts) {path : Path} {put : Container → Cif} {code : Str} (hv : View o path put code)
+    (pre post : List Item) (n : Str) (v : Val) (seen seen2 : List Str) (rest : List TokSpec) (s : PS) (fuel : Nat) (w : W)
+    (fs : List Container) (ls : List Loop) (isBlock : Bool) (hcif : w.cif = put (.mk code fs ls))
+    (hpre : wfItems o pre seen = true) (hseen : ∀ k ∈ normNames o ls, k ∈ seen)
+    (hname : wfName n = true) (hdup : o.norm n ∈ normNames o (denoteItems o.dia o.normKey pre ls))
+    (hwv : wfVal o v = true) (hpost : wfItems o post seen2 = true)
+    (hseen2 : ∀ k ∈ normNames o (denoteItems o.dia o.normKey pre ls), k ∈ seen2)
+    (hfuel : szItems pre + szItems post + szVal v + 1 ≤ fuel)
+    (hrest : lastIsLoop post = true → ∃ ty tx ts, rest = (ty, tx) :: ts ∧ isTerminator ty = true)
+    (hF : Feeds o s (itemsToks pre ++ (((.name, n) :: valToks v) ++ (itemsToks post ++ rest)))) :
+    ∃ s' r, elemsLoop o (fuel + post.length + 1 + pre.length) s (some path) isBlock acceptAll w
+        = elemsLoop o fuel s' (some path) isBlock acceptAll
+            { log := r :: w.log, cif := put (.mk code fs (denoteItems o.dia o.normKey (pre ++ post) ls)) }
+      ∧ r.code = CIF_DUP_ITEMNAME ∧ Feeds o s' rest ∧ RepAt o s ((itemsToks pre).length + 1) r
+      ∧ At o s ((itemsToks pre).length + (1 + (valToks v).length) + (itemsToks post).length) s' := by
+  apply dup_name_run_at <;> assumption
+
+theorem C12_empty_loop_at (o : Opts) {path : Path} {put : Container → Cif} {code : Str} (hv : View o path put code)
+    (pre post : List Item) (ns : List Str) (seen seen2 : List Str) (rest : List TokSpec) (s : PS) (fuel : Nat) (w : W)
+    (fs : List Container) (ls : List Loop) (isBlock : Bool) (hcif : w.cif = put (.mk code fs ls))
+    (hpre : wfItems o pre seen = true) (hseen : ∀ k ∈ normNames o ls, k ∈ seen)
+    (hns : ns ≠ []) (hwf : ∀ n ∈ ns, wfName n = true)
+    (hfresh : ∀ n ∈ ns, o.norm n ∉ normNames o (denoteItems o.dia o.normKey pre ls)) (hnd : (ns.map o.norm).Nodup)
+    (hpost : wfItems o post seen2 = true)
+    (hseen2 : ∀ k ∈ normNames o (denoteItems o.dia o.normKey pre ls ++ [mkLoop ns []]), k ∈ seen2)
+    (hfuel : szItems pre + szItems post + (ns.length + 2) + 1 ≤ fuel)
+    (hnext : ∃ ty tx ts, itemsToks post ++ rest = (ty, tx) :: ts ∧ isTerminator ty = true ∧ ty ≠ .name)
+    (hrest : lastIsLoop post = true → ∃ ty tx ts, rest = (ty, tx) :: ts ∧ isTerminator ty = true)
+    (hF : Feeds o s (itemsToks pre ++ (((.loopKw, []) :: ns.map (fun n => (TokType.name, n))) ++ (itemsToks post ++ rest)))) :
+    ∃ s' r, elemsLoop o (fuel + post.length + 1 + pre.length) s (some path) isBlock acceptAll w
+        = elemsLoop o fuel s' (some path) isBlock acceptAll
+            { log := r :: w.log,
+              cif := put (.mk code fs (denoteItems o.dia o.normKey post (denoteItems o.dia o.normKey pre ls ++ [mkLoop ns []]))) }
+      ∧ r.code = CIF_EMPTY_LOOP ∧ Feeds o s' rest ∧ RepAt o s ((itemsToks pre).length + (1 + ns.length)) r
+      ∧ At o s ((itemsToks pre).length + (1 + ns.length) + (itemsToks post).length) s' := by
+  apply empty_loop_run_at <;> assumption
+
+theorem C12_partial_packet_at (o : Opts) {path : Path} {put : Container → Cif} {code : Str} (hv : View o path put code)
+    (pre post : List Item) (ns : List Str) (ps : List (List Val)) (pv : List Val) (seen seen2 : List Str) (rest : List TokSpec) (s : PS)
+    (fuel : Nat) (w : W) (fs : List Container) (ls : List Loop) (isBlock : Bool) (hcif : w.cif = put (.mk code fs ls))
+    (hpre : wfItems o pre seen = true) (hseen : ∀ k ∈ normNames o ls, k ∈ seen)
+    (hwf : ∀ n ∈ ns, wfName n = true) (hfresh : ∀ n ∈ ns, o.norm n ∉ normNames o (denoteItems o.dia o.normKey pre ls))
+    (hnd : (ns.map o.norm).Nodup) (hlen : ∀ p ∈ ps, p.length = ns.length) (hwv : ∀ p ∈ ps, wfVals o p = true)
+    (hpv : pv ≠ []) (hpl : pv.length < ns.length) (hwpv : wfVals o pv = true)
+    (hpost : wfItems o post seen2 = true)
+    (hseen2 : ∀ k ∈ normNames o (denoteItems o.dia o.normKey
+        [.loop ns (ps ++ [pv ++ List.replicate (ns.length - pv.length) Val.unk])] (denoteItems o.dia o.normKey pre ls)), k ∈ seen2)
+    (hfuel : szItems pre + szItems post + (ns.length + szPackets ps + szVals pv + 2) + 1 ≤ fuel)
+    (hnext : ∃ ty tx ts, itemsToks post ++ rest = (ty, tx) :: ts ∧ isTerminator ty = true)
+    (hrest : lastIsLoop post = true → ∃ ty tx ts, rest = (ty, tx) :: ts ∧ isTerminator ty = true)
+    (hF : Feeds o s (itemsToks pre ++ (((.loopKw, []) :: (ns.map (fun n => (TokType.name, n)) ++ (packetsToks ps ++ valsToks pv)))
+      ++ (itemsToks post ++ rest)))) :
+    ∃ s' r, elemsLoop o (fuel + post.length + 1 + pre.length) s (some path) isBlock acceptAll w
+        = elemsLoop o fuel s' (some path) isBlock acceptAll
+            { log := r :: w.log, cif := put (.mk code fs (denoteItems o.dia o.normKey
+                (pre ++ [.loop ns (ps ++ [pv ++ List.replicate (ns.length - pv.length) Val.unk])] ++ post) ls)) }
+      ∧ r.code = CIF_PARTIAL_PACKET ∧ Feeds o s' rest ∧ RepAt o s ((itemsToks pre).length + (1 + ns.length + (packetsToks ps).length + (valsToks pv).length)) r
+      ∧ At o s ((itemsToks pre).length + (1 + ns.length + (packetsToks ps).length + (valsToks pv).length) + (itemsToks post).length) s' := by
+  apply partial_packet_run_at <;> assumption
+
+theorem C12_dup_header_name_at (o : Opts) {path : Path} {put : Container → Cif} {code : Str} (hv : View o path put code)
+    (pre post : List Item) (ns1 ns2 : List Str) (n' : Str) (p0 : List Val) (ps : List (List Val)) (seen seen2 : List Str)
+    (rest : List TokSpec) (s : PS) (fuel : Nat) (w : W) (fs : List Container) (ls : List Loop) (isBlock : Bool)
+    (hcif : w.cif = put (.mk code fs ls)) (hpre : wfItems o pre seen = true) (hseen : ∀ k ∈ normNames o ls, k ∈ seen)
+    (hwf : ∀ n ∈ ns1 ++ ns2, wfName n = true)
+    (hfresh : ∀ n ∈ ns1 ++ ns2, o.norm n ∉ normNames o (denoteItems o.dia o.normKey pre ls))
+    (hnd : ((ns1 ++ ns2).map o.norm).Nodup) (hne : ns1 ++ ns2 ≠ []) (hname : wfName n' = true)
+    (hdup : o.norm n' ∈ normNames o (denoteItems o.dia o.normKey pre ls) ∨ ∃ m ∈ ns1, o.norm m = o.norm n')
+    (hlen : ∀ p ∈ p0 :: ps, p.length = ns1.length + 1 + ns2.length) (hwv : ∀ p ∈ p0 :: ps, wfVals o p = true)
+    (hpost : wfItems o post seen2 = true)
+    (hseen2 : ∀ k ∈ normNames o (denoteItems o.dia o.normKey pre ls ++ [mkLoop (ns1 ++ ns2)
+        ((p0 :: ps).map (fun p => (denoteVals o.dia o.normKey p).eraseIdx ns1.length))]), k ∈ seen2)
+    (hfuel : szItems pre + szItems post + (ns1.length + ns2.length + szPackets (p0 :: ps) + 3) + 1 ≤ fuel)
+    (hnext : ∃ ty tx ts, itemsToks post ++ rest = (ty, tx) :: ts ∧ isTerminator ty = true)
+    (hrest : lastIsLoop post = true → ∃ ty tx ts, rest = (ty, tx) :: ts ∧ isTerminator ty = true)
+    (hF : Feeds o s (itemsToks pre ++ (((.loopKw, []) :: (ns1.map (fun n => (TokType.name, n)) ++ ((.name, n') ::
+      (ns2.map (fun n => (TokType.name, n)) ++ packetsToks (p0 :: ps))))) ++ (itemsToks post ++ rest)))) :
+    ∃ s' r, elemsLoop o (fuel + post.length + 1 + pre.length) s (some path) isBlock acceptAll w
+        = elemsLoop o fuel s' (some path) isBlock acceptAll
+            { log := r :: w.log, cif := put (.mk code fs (denoteItems o.dia o.normKey post
+                (denoteItems o.dia o.normKey pre ls ++ [mkLoop (ns1 ++ ns2)
+                  ((p0 :: ps).map (fun p => (denoteVals o.dia o.normKey p).eraseIdx ns1.length))]))) }
+      ∧ r.code = CIF_DUP_ITEMNAME ∧ Feeds o s' rest ∧ RepAt o s ((itemsToks pre).length + (1 + ns1.length)) r
+      ∧ At o s ((itemsToks pre).length + (1 + ns1.length + 1 + ns2.length + (packetsToks (p0 :: ps)).length) + (itemsToks post).length) s' := by
+  apply dup_header_run_at <;> assumption
+
 /-- **C12_invalid_index** — a quoted table key that cannot be a table index (it holds a character CIF does not allow — the
     scanner has reported the character and the report was answered "continue"): exactly one CIF_INVALID_INDEX, at the scanner's
     line behind the key; the entry is dropped (its value is parsed and discarded, as for a null key); the table consists of the
